@@ -64,8 +64,9 @@ ASSUMPTIONS = [
     'between the exact values for radius r(1-+d), height h(1-+2d), d = min(1e-3, 1e-14 (1+|b|/r)/|n x a|) (backward error of the square root)',
     'quadrature_points_inside is stated for axes with |z x a| = 0 or >= 1e-10 (the source does not rotate below that threshold: '
     'for 0 < |z x a| < 1e-10 the rule is placed for the axis +-z, i.e. tilted by < 1e-10 rad)',
-    'sum of weights = volume exactly only if the disk table sums to pi: proved |sum - V| <= 1e-11 r^2 h (cheap), 2e-7 r^2 h (medium), '
-    '4e-7 r^2 h (expensive) on the regenerated tables; the 8-digit tables disk55/disk256_cheb miss pi by 3.3e-8 / 8.5e-8 relative (known findings)',
+    'sum of weights = volume: _cylinder_quadrature_from_product normalises the disk weights to PI (fix 1fd06eb), the Chebyshev line '
+    'weights are normalised to 2 by the source: the sum is EXACTLY the volume for medium/expensive (theorem) and within 4e-12 r^2 h / 2 '
+    'for cheap (numpy Gauss-Legendre weights sum to 2 within 1e-12, checked on the regenerated tables)',
     'moments: degree <= 1 for every kind and degree <= 3 along the axis for the Gauss-Legendre rule are proved as identities in the table '
     'moments; the table moments themselves are checked to 1e-12 by vm_compute, not proved; higher disk degrees are not claimed',
     'rigid-motion / other-end invariance is proved for path lengths; for the transmission MAP it holds only up to the quadrature error '
@@ -76,7 +77,7 @@ ASSUMPTIONS = [
 LEVEL_TEXT = ('Proof (Coq, reals): the model\'s cylinder/slab intervals are exactly the ray parameters inside the solid, the returned '
               'length is the length of {t>=0 : inside}, invariant under rigid motions and under describing the solid from its other end; '
               'with the atan2 angle every placed quadrature point is inside for every admissible unit axis, weights are positive and sum to '
-              '(disk sum)(line sum) r^2 h/2, centroid and axial moments are exact in the table moments; the transmission of any positive rule '
+              'the volume (exactly for the Chebyshev kinds, 4e-12 relative for Gauss-Legendre), centroid and axial moments are exact in the table moments; the transmission of any positive rule '
               'lies in (0, sum w/V], equals sum w/V without attenuation and decreases with mu.  The asin angle of the unfixed source is refuted.')
 LEVEL_NOTE = ('Trusted: Coq kernel, std-lib real axioms, Interval; the hand model (validated per run against the implementation on rays of all '
               'classes, all quadrature points, weights, transmission values), py2coq + Sem/Val.v for the translated helpers.')
@@ -88,7 +89,7 @@ KINDS = ['cheap', 'medium', 'expensive']
 DISK = {'cheap': 'disk12', 'medium': 'disk55', 'expensive': 'disk256_cheb'}
 NDISK_FALLBACK = {'cheap': 12, 'medium': 55, 'expensive': 257}
 INV_TOL = {'cheap': 4e-2, 'medium': 4e-3, 'expensive': 5e-4}
-ONE_TOL = {'cheap': 1e-12, 'medium': 1e-7, 'expensive': 2e-7}
+ONE_TOL = {'cheap': 1e-12, 'medium': 1e-12, 'expensive': 1e-12}
 
 
 # ------------------------------------------------------------------ exact dyadic serialisation
